@@ -25,15 +25,15 @@ def plan(tier: str, seed: int, scale: float = 1.0, max_n_quick=14, max_n_thoroug
         specs.append(("enum", 2, 0, 1, 1, 0))
         specs.append(("enum", 3, 0, 1, 1, 0))
         specs.append(("enum", 4, 0, 1, 1, 0))
-        stride = max(1, int(round(4 / scale)))
+        stride = max(1, int(round(2 / scale)))
         for s in range(16):
             specs.append(("enum", 5, s, 16, stride, seed % stride))
-        ex = max(20, int(190 * scale))
+        ex = max(20, int(400 * scale))
         for s in range(16):
             specs.append(("hyp", seed, s, ex, max_n_quick))
         if corpus:
             for s in range(8):
-                specs.append(("corpus", s, 8, max(10, int(60 * scale))))
+                specs.append(("corpus", s, 8, max(10, int(100 * scale))))
     else:
         for n in (1, 2, 3, 4):
             specs.append(("enum", n, 0, 1, 1, 0))
